@@ -1,5 +1,5 @@
 // scf-for-loop-flatten:ub-times-factor-overflow
-// pass: scf-for-loop-flatten  inputs: [[13835058055282163707], [2]]
+// pass: scf-for-loop-flatten  inputs: [[13835058055282163714], [2]]
 func.func @main(%n: index) -> (index) {
   %c0 = arith.constant 0 : index
   %c1 = arith.constant 1 : index
